@@ -184,7 +184,8 @@ impl<T: Ipc> DatapathTrait for Datapath<T> {
 
         let msg = serialize::update_field::Msg {
             sid: self.sock_id,
-            num_fields: fields.len() as u8,
+            num_fields: u8::try_from(fields.len())
+                .map_err(|_| Error(format!("Too many fields to update: {}", fields.len())))?,
             fields,
         };
 
